@@ -48,39 +48,32 @@ func dumpCases(a []string) {
 
 // ---------------------------------------------------------------- extract
 
-// from returns the part of s starting at the first occurrence of pat ("" if absent).
-func from(s, pat string) string {
-	i := strings.Index(s, gofacts.Norm(pat))
-	if i < 0 {
-		return ""
+// Every fact compares the WHOLE normalised body of a method with the text the model was written against (31 methods
+// and helpers); signatures, receivers, types, constructors and the file set are compared by bin/check S2b.
+
+const (
+	declLock   = "var ( wrLocker *wrapLocker ok bool ) "
+	lookupOrMk = "d.locker.Lock() wrLocker, ok = d.lockMap[key] if !ok { wrLocker = &wrapLocker{} d.lockMap[key] = wrLocker } "
+)
+
+// lockBody: Lock/RLock with the count raised before blocking (today) or after the blocking call.
+func lockBody(cnt, blk string, after bool) string {
+	if after {
+		return "{ " + declLock + lookupOrMk + "d.locker.Unlock() wrLocker.rwLocker." + blk + "() wrLocker." + cnt + "++ }"
 	}
-	return s[i:]
+	return "{ " + declLock + lookupOrMk + "wrLocker." + cnt + "++ d.locker.Unlock() wrLocker.rwLocker." + blk + "() }"
 }
 
-func drop(s, pat string) string { return gofacts.Norm(strings.Replace(s, gofacts.Norm(pat), " ", 1)) }
+func unlockBody(decl, cnt, blk string) string {
+	return "{ " + decl + " d.locker.Lock() wrLocker = d.lockMap[key] wrLocker.rwLocker." + blk + "() wrLocker." + cnt + "-- d.tryFree(key, wrLocker) d.locker.Unlock() }"
+}
 
-// countSite classifies where `wrLocker.<cnt>++` sits relative to the table-mutex section and the blocking call.
-func countSite(body, cnt, block string) string {
-	iLock := strings.Index(body, "d.locker.Lock()")
-	iCnt := strings.Index(body, "wrLocker."+cnt+"++")
-	iUn := strings.Index(body, "d.locker.Unlock()")
-	if iLock < 0 || iCnt < 0 || iUn < 0 || strings.Count(body, "wrLocker."+cnt+"++") != 1 {
-		return "unknown"
-	}
-	iBlk := -1
-	if block != "" {
-		iBlk = strings.Index(body, block)
-		if iBlk < 0 {
-			return "unknown"
-		}
-	}
-	switch {
-	case iLock < iCnt && iCnt < iUn && (block == "" || iUn < iBlk):
-		return "beforeBlock"
-	case block != "" && iBlk < iCnt:
-		return "afterBlock"
-	}
-	return "unknown"
+func getBody(cnt string) string {
+	return "{ var ( wrLocker *wrapLocker ok bool ws []*wrapLocker ) ws = make([]*wrapLocker, len(keys)) d.locker.Lock() for i, key := range keys { wrLocker, ok = d.lockMap[key] if !ok { wrLocker = &wrapLocker{} d.lockMap[key] = wrLocker } wrLocker." + cnt + "++ ws[i] = wrLocker } d.locker.Unlock() return ws }"
+}
+
+func multiUnlockBody(cnt, blk string) string {
+	return "{ var wrLocker *wrapLocker d.locker.Lock() for _, key := range keys { wrLocker = d.lockMap[key] wrLocker.rwLocker." + blk + "() wrLocker." + cnt + "-- d.tryFree(key, wrLocker) } d.locker.Unlock() }"
 }
 
 func guardOf(body string) string {
@@ -99,11 +92,7 @@ func guardOf(body string) string {
 }
 
 const (
-	expLockTail   = "d.locker.Lock() wrLocker, ok = d.lockMap[key] if !ok { wrLocker = &wrapLocker{} d.lockMap[key] = wrLocker } d.locker.Unlock() wrLocker.rwLocker.%s() }"
-	expUnlockTail = "d.locker.Lock() wrLocker = d.lockMap[key] wrLocker.rwLocker.%s() wrLocker.%s-- d.tryFree(key, wrLocker) d.locker.Unlock() }"
-	expGetTail    = "ws = make([]*wrapLocker, len(keys)) d.locker.Lock() for i, key := range keys { wrLocker, ok = d.lockMap[key] if !ok { wrLocker = &wrapLocker{} d.lockMap[key] = wrLocker } ws[i] = wrLocker } d.locker.Unlock() return ws }"
 	expMultiLock  = "{ var ws = d.%s(keys) for _, wrLocker := range ws { wrLocker.rwLocker.%s() } }"
-	expMultiUn    = "d.locker.Lock() for _, key := range keys { wrLocker = d.lockMap[key] wrLocker.rwLocker.%s() wrLocker.%s-- d.tryFree(key, wrLocker) } d.locker.Unlock() }"
 	expGrpLocks   = "{ var ms = w.calculateSortedMultiKeys(keys) var ws = make([]*wrapLocker, 0, len(keys)) for _, ks := range ms { ws = append(ws, w.ls[ks.index].%s(ks.ks)...) } for _, wr := range ws { wr.rwLocker.%s() } }"
 	expGrpUnlocks = "{ var m = w.calculateSortedMultiKeys(keys) for _, ks := range m { w.ls[ks.index].%s(ks.ks) } }"
 	expGrpBuild   = "{ var m = make(map[int][]T) for _, key := range keys { var i = w.calKeyFn(key) m[i] = append(m[i], key) } var ms = make([]multiKeyT[T], 0, len(m)) for i, ks := range m { ms = append(ms, multiKeyT[T]{index: i, ks: ks}) } slices.SortFunc[multiKeyT[T]](ms, func(a, b multiKeyT[T]) bool { return CMP }) return ms }"
@@ -117,23 +106,27 @@ func extract(repo, leanDir string) {
 	tgf := gofacts.MustLoad(repo, "syncx/keylock/tgroup.go")
 
 	type site struct {
-		f            *gofacts.File
-		recv         string
+		f    *gofacts.File
+		recv string
+		decl string // declaration form used by the unlock paths of that file
 	}
-	sites := []site{{kf, "KeyLocker"}, {tf, "TKeyLocker"}}
+	sites := []site{{kf, "KeyLocker", "var ( wrLocker *wrapLocker )"}, {tf, "TKeyLocker", "var wrLocker *wrapLocker"}}
 	lockShape, unlockShape := true, true
 	var places []string
 	for _, s := range sites {
 		for _, x := range []struct{ name, cnt, blk string }{{"Lock", "writeCount", "Lock"}, {"RLock", "readCount", "RLock"}} {
-			b := s.f.Body(s.recv, x.name)
-			places = append(places, countSite(b, x.cnt, "wrLocker.rwLocker."+x.blk+"()"))
-			if from(drop(b, "wrLocker."+x.cnt+"++"), "d.locker.Lock()") != fmt.Sprintf(expLockTail, x.blk) {
+			switch b := s.f.Body(s.recv, x.name); b {
+			case lockBody(x.cnt, x.blk, false):
+				places = append(places, "beforeBlock")
+			case lockBody(x.cnt, x.blk, true):
+				places = append(places, "afterBlock")
+			default:
+				places = append(places, "unknown")
 				lockShape = false
 			}
 		}
 		for _, x := range []struct{ name, cnt, blk string }{{"Unlock", "writeCount", "Unlock"}, {"RUnlock", "readCount", "RUnlock"}} {
-			b := s.f.Body(s.recv, x.name)
-			if from(b, "d.locker.Lock()") != fmt.Sprintf(expUnlockTail, x.blk, x.cnt) {
+			if s.f.Body(s.recv, x.name) != unlockBody(s.decl, x.cnt, x.blk) {
 				unlockShape = false
 			}
 		}
@@ -142,15 +135,16 @@ func extract(repo, leanDir string) {
 	for _, x := range []struct{ get, cnt, lock, blk, un, unblk string }{
 		{"getWriteLocks", "writeCount", "Locks", "Lock", "Unlocks", "Unlock"},
 		{"getReadLocks", "readCount", "RLocks", "RLock", "RUnlocks", "RUnlock"}} {
-		b := tf.Body("TKeyLocker", x.get)
-		places = append(places, countSite(b, x.cnt, ""))
-		if from(drop(b, "wrLocker."+x.cnt+"++"), "ws = make(") != expGetTail {
+		if tf.Body("TKeyLocker", x.get) == getBody(x.cnt) {
+			places = append(places, "beforeBlock")
+		} else {
+			places = append(places, "unknown")
 			multiGet = false
 		}
 		if tf.Body("TKeyLocker", x.lock) != fmt.Sprintf(expMultiLock, x.get, x.blk) {
 			multiLock = false
 		}
-		if from(tf.Body("TKeyLocker", x.un), "d.locker.Lock()") != fmt.Sprintf(expMultiUn, x.unblk, x.cnt) {
+		if tf.Body("TKeyLocker", x.un) != multiUnlockBody(x.cnt, x.unblk) {
 			multiUn = false
 		}
 	}
